@@ -21,9 +21,10 @@ BASE = dict(CmdSz=2, W=3)
 MC = "---- MODULE MC_%s ----\nEXTENDS %s\nMCOLog == <<2>>\n====\n"
 
 
-def fcfg(ml, mf, a, b, c, refollow=0, stale="percmd", extra="VIEW View\nINVARIANT CopyWhenCaughtUp NoEarlyCaughtUp LogIsLeaderPrefix\n"):
+def fcfg(ml, mf, a, b, c, refollow=0, stale="percmd", cuts=True,
+         extra="VIEW View\nINVARIANT CopyWhenCaughtUp CopyWhenQuiescent NoEarlyCaughtUp LogIsLeaderPrefix\n"):
     return ("SPECIFICATION Spec\n" + cfg_consts(MaxLeader=ml, MaxFaults=mf, SmallNoCheck=a, ZeroNoReset=b, IntactShortcut=c,
-                                                MaxRefollow=refollow, StaleCheck=stale, OLog="<- MCOLog", **BASE) + extra)
+                                                MaxRefollow=refollow, StaleCheck=stale, ShrinkCutsCopying=cuts, OLog="<- MCOLog", **BASE) + extra)
 
 
 def design(ctx):
@@ -44,9 +45,13 @@ def design(ctx):
                  timeout=900, expect_violation=True)
     if r3["violated"] is None:
         raise common.Infra("Follow deviation StaleCheck=atread is not detected (vacuous)")
+    r4 = ctx.tlc("fol_midcopy", ["Follow.tla"], MC % ("fol_midcopy", "Follow"), fcfg(4, 1, False, False, False, cuts=False),
+                 timeout=900, expect_violation=True)
+    if r4["violated"] is None:
+        raise common.Infra("Follow deviation ShrinkCutsCopying=FALSE is not detected (vacuous)")
     ctx.log("TLC Follow: intended design %d states (incl. re-follow with a stale session), CopyWhenCaughtUp / NoEarlyCaughtUp / "
-            "LogIsLeaderPrefix hold; the three historical deviations of followCheckSome and the stale-session check before the read "
-            "are refuted" % r["distinct"])
+            "LogIsLeaderPrefix hold; the three historical deviations of followCheckSome, the stale-session check before the read "
+            "and a shrink that does not cut a follower in its backlog copy are refuted" % r["distinct"])
     return r
 
 
@@ -87,8 +92,10 @@ def run_scenarios(ctx, scs, label):
     rc, js, err = ctx.harness(["follow-run", "-in", f, "-par", "6"], timeout=3300)
     st = js["stats"]
     ctx.log("%s: %d scenarios on real leader/follower pairs: %d leader batches, %d drops, %d follower restarts, %d leader shrinks, "
-            "%d re-follows to a second leader, %d writes on the former leader, %d quiescent comparisons, %d mismatches" % (
+            "(%d while the follower was parked in its backlog copy), %d re-follows to a second leader, %d writes on the former leader, "
+            "%d quiescent comparisons, %d mismatches" % (
             label, st.get("scenarios", 0), st.get("lwrites", 0), st.get("drops", 0), st.get("frestarts", 0), st.get("lshrinks", 0),
+            st.get("lshrinks_midcopy", 0),
             st.get("refollows", 0), st.get("owrites", 0), st.get("syncs", 0), len(js.get("mismatches") or [])))
     groups = {}
     for m in js.get("mismatches") or []:
@@ -125,6 +132,8 @@ def run(ctx):
         want(lambda s: "frestart" in s["steps"], 4)
         want(lambda s: "drop" in s["steps"], 4)
         want(lambda s: "lshrink" in s["steps"], 4)
+        want(lambda s: s["steps"][:1] == ["lshrinkmid"] and "lwrite" in s["steps"][1:], 3)
+        want(lambda s: any(a == "frestart" and b == "lshrinkmid" for a, b in zip(s["steps"], s["steps"][1:])) and s["steps"][-1] == "lwrite", 2)
         want(lambda s: "refollow" in s["steps"] and "owrite" in s["steps"] and s["prefix"] == s["linit"], 3)
         want(lambda s: "refollow" in s["steps"] and "owrite" in s["steps"], 3)
         want(lambda s: True, 4)
@@ -137,7 +146,7 @@ def run(ctx):
     common.write_evidence(ctx, "model_checking", {
         "states": d["distinct"] + r["distinct"], "transitions": d["generated"] + r["generated"],
         "traces_validated_against_impl": st.get("scenarios", 0), "scenarios_in_graph": len(scs),
-        "quiescent_comparisons": st.get("syncs", 0), "faults": {k: st.get(k, 0) for k in ("drops", "frestarts", "lshrinks", "refollows", "owrites")},
+        "quiescent_comparisons": st.get("syncs", 0), "faults": {k: st.get(k, 0) for k in ("drops", "frestarts", "lshrinks", "lshrinks_midcopy", "refollows", "owrites")},
         "samples": scs_run[:3], "exhaustive": not ctx.quick,
         "explanation": "Design: TLC explores all leader histories (<=4/5 commands incl. a non-idempotent one), initial follower logs "
                        "(prefix + foreign suffix) and fault sequences. Conformance: scenarios from the reachable graph run on real "
